@@ -238,10 +238,10 @@ def causes(f):
 
 
 # shapes of the OPEN findings only.  The shapes of findings repaired in /repo (re_loop_app, two_constants,
-# reserved_var_name, smt_symbols_inconsistent, smt_ite, smt_distinct) are still computed as labels but no longer
+# reserved_var_name, smt_symbols_inconsistent, smt_ite, smt_distinct, mexpr_quote_backslash) are still computed as labels but no longer
 # explain a failure: if one of those defects comes back it is reported as a violation.
 CAUSE_ORDER = ["numeric_var_bound_twice", "numvar_name_clash", "var_name_two_types",
-               "mexpr_brace_bracket", "mexpr_quote_backslash", "smt_str_lt", "smt_real_value", "smt_seq_unit", "smt_nested_not",
+               "mexpr_brace_bracket", "smt_str_lt", "smt_real_value", "smt_seq_unit", "smt_nested_not",
                "smt_root_not_compound", "smt_root_not_unstable"]
 
 
